@@ -3,11 +3,12 @@
 specs: storage/WriterSpec (oracle), WriterImpl (design: chunk loop, ragged
 counter, fixed-width text).
 """
+import json
 import shutil
 
 import numpy as np
 
-from .. import evidence, findings, gen, par, tlc
+from .. import evidence, findings, gen, par, tlc, tracecheck
 from ..shims import import_dclab
 
 PID = "C01"
@@ -224,6 +225,144 @@ def _replay(job):
 _replay.n = 0
 
 
+TRACE_CFG = """INIT TInit
+NEXT TStep
+CONSTRAINT Report
+CONSTANTS
+ Feats <- TFeats
+ LogNames <- TLogs
+ Modes <- TModes
+ Sizes = {1}
+ LineClasses = {"short"}
+ MaxLines = 1
+CHECK_DEADLOCK FALSE
+"""
+T_FEATS = ("deform", "area_um", "image", "mask", "contour", "trace",
+           "fl1_max")
+T_LOGS = ("log", "log2")
+T_CLASSES = ("short", "exact100", "long150", "unicode", "unicode140",
+             "bytes")
+
+
+def record_session(job):
+    """a long random writer session on the real RTDCWriter, recorded as a
+    trace for WriterTrace (the file is observed whenever the writer is
+    closed)"""
+    import os
+    import random
+    import h5py
+    from dclab.rtdc_dataset import RTDCWriter, writer
+    sd, root = job
+    rng = random.Random(sd)
+    writer.CHUNK_SIZE_BYTES = rng.choice([200, 2600])
+    path = root / ("t%d_%d.rtdc" % (os.getpid(), sd))
+    feats = rng.sample(T_FEATS, rng.choice([2, 3, 4]))
+    evs, tok, lines_of = [], 1, {}
+    hw, first_open = None, True
+    try:
+        for _ in range(rng.choice([3, 5, 8])):
+            mode = "reset" if first_open else rng.choice(
+                ["append", "append", "replace", "reset"])
+            e = {"a": "open", "mode": mode, "raised": False}
+            evs.append(e)
+            hw = RTDCWriter(path, mode=mode)
+            hw.__enter__()
+            if first_open or mode == "reset":
+                m = {k: dict(v) for k, v in gen.META.items()}
+                if "trace" not in feats and "fl1_max" not in feats:
+                    m.pop("fluorescence")
+                hw.store_metadata(m)
+            first_open = False
+            for _ in range(rng.choice([1, 2, 4])):
+                if rng.random() < 0.3:
+                    ln = rng.choice(T_LOGS)
+                    cls = [rng.choice(T_CLASSES)
+                           for _ in range(rng.choice([1, 2, 3]))]
+                    e = {"a": "storelog", "l": ln, "classes": cls,
+                         "first": tok, "raised": False}
+                    evs.append(e)
+                    lines = [line(c, tok + k) for k, c in enumerate(cls)]
+                    for k, c in enumerate(cls):
+                        lines_of[as_text(lines[k])] = [c, tok + k]
+                    tok += len(cls)
+                    hw.store_log(ln, lines)
+                else:
+                    f = rng.choice(feats)
+                    n = rng.choice([1, 2, 3, 9, 10, 11, 21])
+                    e = {"a": "store", "f": f, "n": n, "first": tok,
+                         "raised": False}
+                    evs.append(e)
+                    hw.store_feature(f, gen.encode(f, list(range(tok,
+                                                                 tok + n))))
+                    tok += n
+            e = {"a": "close", "raised": False}
+            evs.append(e)
+            hw.__exit__(None, None, None)
+            hw = None
+            obs = observe(path, list(T_FEATS))
+            content = {}
+            h5lens = set()
+            for f in T_FEATS:
+                g0 = obs["h5py"].get(f)
+                if isinstance(g0, dict):
+                    g0 = (list(g0.values()) or [[]])[0]
+                if g0:
+                    h5lens.add(len(g0))
+            # (dclab's view is defined by the event count: compared only when
+            # all stored features have the same number of events)
+            cross = len(h5lens) == 1
+            for f in T_FEATS:
+                got = obs["h5py"].get(f)
+                if isinstance(got, dict):            # trace: per channel
+                    vals = list(got.values()) or [[]]
+                    got = vals[0] if all(v == vals[0] for v in vals) \
+                        else None
+                content[f] = [-1] if got is None else [int(t) for t in got]
+                via = obs["dclab"].get(f)
+                if isinstance(via, dict):
+                    vv = list(via.values()) or [[]]
+                    via = vv[0] if all(v == vv[0] for v in vv) else None
+                if cross and obs["dclab"] and via != got and not (
+                        via == [] and got == []):
+                    content[f] = [-1]
+            e["content"] = content
+            e["logs"] = {ln: [lines_of.get(as_text(x), ["?", -1])
+                              for x in obs["logs"].get(ln, [])]
+                         for ln in T_LOGS}
+            lens = {len(v) for v in content.values() if v}
+            with h5py.File(path, "r") as h5:
+                cnt = h5.attrs.get("experiment:event count")
+            if len(lens) == 1 and cnt is not None:
+                e["count"], e["stored"] = int(cnt), lens.pop()
+            else:
+                e["count"] = e["stored"] = 0
+            e["indexok"] = True
+    except Exception as exc:
+        evs[-1]["raised"] = True
+        evs[-1]["exc"] = type(exc).__name__
+    finally:
+        if hw is not None:
+            try:
+                hw.h5file.close()
+            except Exception:
+                pass
+        if path.exists():
+            path.unlink()
+    for e in evs:                 # every record carries every field
+        e.setdefault("mode", "")
+        e.setdefault("f", "")
+        e.setdefault("n", 0)
+        e.setdefault("l", "")
+        e.setdefault("classes", [])
+        e.setdefault("first", 0)
+        e.setdefault("content", {f: [] for f in T_FEATS})
+        e.setdefault("logs", {ln: [] for ln in T_LOGS})
+        e.setdefault("count", 0)
+        e.setdefault("stored", 0)
+        e.setdefault("indexok", True)
+    return {"seed": sd, "feats": feats, "ev": evs}
+
+
 def main(tier, seed, replay=None):
     import_dclab()
     ev = evidence.Evidence(PID, tier, seed)
@@ -287,6 +426,46 @@ def main(tier, seed, replay=None):
                     if "+" in s or s.startswith("log:")) >= 2)
                 if viol:
                     rep.violation(viol[0], viol[1], case, size=viol[2])
+        # 3. code -> spec: long random sessions judged by TLC (WriterTrace)
+        nses = 150 if q else 2000
+        recs = par.pmap(record_session,
+                        [(seed * 100003 + i, root) for i in range(nses)],
+                        chunk=10)
+        res3, okset, rej = tracecheck.validate("WriterTrace", TRACE_CFG, recs,
+                                               workers=8, timeout=3000)
+        ev.add_tlc("WriterTrace (%d recorded sessions)" % len(recs), res3)
+        ev.traces += len(okset)
+        ev.extra["recorded_sessions"] = len(recs)
+        ev.extra["recorded_sessions_accepted"] = len(okset)
+        for tid, (ln, why) in sorted(rej.items()):
+            r = recs[tid - 1]
+            e = r["ev"][ln - 1] if 0 < ln <= len(r["ev"]) else {}
+            rep.violation("recorded session rejected: %s%s" % (
+                why, " (%s)" % e.get("exc") if why == "raised" else ""),
+                "seed %s line %d: %s" % (r["seed"], ln, str(e)[:300]), r,
+                size=ln)
+        # binding self-test: a corrupted observation must be rejected
+        bad = [json.loads(json.dumps(r)) for r in recs[:20]]
+        n_bad = 0
+        for r in bad:
+            closes = [e for e in r["ev"] if e["a"] == "close"
+                      and any(e["content"].values())]
+            if closes:
+                f = [k for k, v in closes[-1]["content"].items() if v][0]
+                closes[-1]["content"][f] = closes[-1]["content"][f][:-1]
+                n_bad += 1
+            else:
+                r["ev"] = []
+        _, ok_b, _ = tracecheck.validate("WriterTrace", TRACE_CFG, bad,
+                                         workers=4, timeout=900)
+        accepted_bad = [i for i, r in enumerate(bad, 1)
+                        if r["ev"] and i in ok_b and any(
+                            e["a"] == "close" and any(e["content"].values())
+                            for e in r["ev"])]
+        ev.extra["binding_selftest_corrupted"] = n_bad
+        if accepted_bad:
+            raise tlc.TLCError("WriterTrace accepted corrupted traces %s"
+                               % accepted_bad)
     finally:
         shutil.rmtree(root, ignore_errors=True)
     return rep.finish()
